@@ -230,7 +230,8 @@ def check_axes_after_mutation(views, commons, shape):
     N = views[0].shape[0]
     call = Call(("count", None, 0, "none", False, "nan"), N, 0, 0)
     idx = [mk(v, c) for v, c in zip(views, commons)]
-    evaluate(call, lambda: ccube(idx, shape))  # the first cube over these objects
+    cube1 = ccube(idx, shape)
+    evaluate(call, lambda: cube1)  # the first aggregate, on a cube that is used again below
     i = multi[0]
     x = idx[i]
     if len(x) == 0:
@@ -245,12 +246,18 @@ def check_axes_after_mutation(views, commons, shape):
         return 0
     views2 = list(views)
     views2[i] = view(x)
-    full = evaluate(call, lambda: ccube(idx, shape))
     extra = tuple(e for s_ in struct for e in s_)
     shape = tuple(int(e) for e in shape)
+    n = 0
+    for which, full in (("a new cube over the same index objects", evaluate(call, lambda: ccube(idx, shape))), ("the same cube object", evaluate(call, lambda: cube1))):
+        n += _blocks_against_current_content(full, which, views, views2, commons, shape, struct, extra, call, i, k0, N)
+    return n
+
+
+def _blocks_against_current_content(full, which, views, views2, commons, shape, struct, extra, call, i, k0, N):
     ob = "ccubes.ccube.count/extra-axes-after-mutation-of-a-dimension"
-    cls = {"cube": "ccube", "extra_extents": list(extra), "dims": len(views), "history": "cube, difference_update(one whole entry), cube"}
-    inp = lambda: dict(case_input("ccube", views, commons, shape, call), history=["ccube(dims).count()", "dims[%d].difference_update({%r: its rows})" % (i, list(k0)), "ccube(dims).count()"])  # noqa
+    cls = {"cube": "ccube", "extra_extents": list(extra), "dims": len(views), "history": "count, difference_update(one whole entry), count on " + which}
+    inp = lambda: dict(case_input("ccube", views, commons, shape, call), history=["c = ccube(dims); c.count()", "dims[%d].difference_update({%r: its rows})" % (i, list(k0)), "count() on " + which])  # noqa
     MON.check(ob + "-no-raise", full.err is None, lambda: "the call %s" % full.show(), inp, cls)
     if full.err is not None:
         return 0
